@@ -225,16 +225,19 @@ def _may_yield_nothing(tree, cls, value, rel):
     raise TranslateError(f"{rel}:{value.lineno}: value handed to known_hosts has a shape that is not translated")
 
 
-def _open_calls(name):
+def _open_paths(name):
+    """every path through `open()` (function entry to normal exit), each as the list of the calls of interest it
+    makes in order, with "inside `if …auth_strict_key:`" flags.  Tests other than the one on auth_strict_key are
+    taken as free (either branch can be taken — whatever state an earlier attempt left behind), so a verification
+    that is skipped on SOME path to `_authenticate` / `connect` shows up as a path of its own (dominator check:
+    the theorems demand `safeOrder` of EVERY path).  Paths that end in `raise` are exits, not paths to a credential
+    call, and are dropped."""
     rel, cls = TRANSPORTS[name]
     tree = _parse(rel)
     fopen = _func(tree, "open", cls)
     if fopen is None:
         raise TranslateError(f"{rel}: {cls}.open not found")
     vk, vkv = _func(tree, "_verify_key", cls), _func(tree, "_verify_key_value", cls)
-    out = []          # (position, call name, guarded)
-    pins = []         # (position, guarded, value node) of `X["known_hosts"] = <not None>`
-    kh_literal_none = None
 
     def classify(call):
         f = call.func
@@ -258,67 +261,136 @@ def _open_calls(name):
             return "connect"
         return None
 
-    def walk(node, guarded):
-        nonlocal kh_literal_none
-        if isinstance(node, ast.If) and _mentions_strict(node.test):
-            if not _positive_strict(node.test):
-                raise TranslateError(f"{rel}:{node.lineno}: unsupported test on {PARAM} in open()")
-            for s in node.body:
-                walk(s, True)
-            for s in node.orelse:
-                for n in ast.walk(s):
-                    if isinstance(n, ast.Call) and classify(n):
-                        raise TranslateError(f"{rel}:{n.lineno}: call of interest in the else branch of a strict test")
-            return
-        if isinstance(node, ast.ExceptHandler):
-            for n in ast.walk(node):
-                if isinstance(n, ast.Call) and classify(n):
-                    raise TranslateError(f"{rel}:{n.lineno}: call of interest inside an except handler")
-            return
-        if isinstance(node, (ast.For, ast.While, ast.AsyncFor)):
-            for n in ast.walk(node):
-                if isinstance(n, ast.Call) and classify(n):
-                    raise TranslateError(f"{rel}:{n.lineno}: call of interest inside a loop")
-        if isinstance(node, ast.Call):
-            k = classify(node)
-            if k:
-                out.append(((node.lineno, node.col_offset), k, guarded))
-        if isinstance(node, (ast.Assign, ast.AnnAssign)):
-            targets = node.targets if isinstance(node, ast.Assign) else [node.target]
-            for t in targets:
-                if isinstance(t, ast.Subscript) and isinstance(t.slice, ast.Constant) and t.slice.value == "known_hosts":
-                    v = node.value
-                    if not (isinstance(v, ast.Constant) and v.value is None):
-                        pins.append(((node.lineno, node.col_offset), guarded, v))
-        if isinstance(node, ast.Dict):
-            for k, v in zip(node.keys, node.values):
+    def interest(node):
+        for n in ast.walk(node):
+            if isinstance(n, ast.Call) and classify(n):
+                return n
+            if isinstance(n, (ast.Assign, ast.AnnAssign)):
+                for t in (n.targets if isinstance(n, ast.Assign) else [n.target]):
+                    if isinstance(t, ast.Subscript) and isinstance(t.slice, ast.Constant) and t.slice.value == "known_hosts":
+                        return n
+        return None
+
+    kh_literal_none = None
+    for n in ast.walk(fopen):
+        if isinstance(n, ast.Dict):
+            for k, v in zip(n.keys, n.values):
                 if isinstance(k, ast.Constant) and k.value == "known_hosts":
                     kh_literal_none = isinstance(v, ast.Constant) and v.value is None
-        if isinstance(node, ast.keyword) and node.arg == "known_hosts":
-            kh_literal_none = isinstance(node.value, ast.Constant) and node.value.value is None
-        for ch in ast.iter_child_nodes(node):
-            walk(ch, guarded)
+        if isinstance(n, ast.keyword) and n.arg == "known_hosts":
+            kh_literal_none = isinstance(n.value, ast.Constant) and n.value.value is None
+        if isinstance(n, (ast.IfExp, ast.BoolOp, ast.ListComp, ast.GeneratorExp, ast.Lambda, ast.DictComp, ast.SetComp)) and interest(n) is not None \
+                and any(isinstance(x, ast.Call) and classify(x) for x in ast.walk(n)):
+            raise TranslateError(f"{rel}:{n.lineno}: call of interest inside a conditional expression: shape not translated")
 
-    for s in fopen.body:
-        walk(s, False)
-    out.sort()
-    calls = []
-    for pos, k, g in out:
-        if k == "connect":
-            if kh_literal_none is None:
-                raise TranslateError(f"{rel}: cannot see what is passed as known_hosts to connect()")
-            if kh_literal_none is False:
-                raise TranslateError(f"{rel}: known_hosts in the literal arguments of connect() is not None: shape not translated")
-            before = [(p, gd, v) for p, gd, v in pins if p < pos]
-            if any(not gd for _, gd, _ in before):
-                raise TranslateError(f"{rel}: known_hosts set outside the strict branch: shape not translated")
-            fallback = any(_may_yield_nothing(tree, cls, v, rel) for _, _, v in before)
-            calls.append((f".connect {lbool(bool(before))} {lbool(fallback)}", g))
-        else:
-            calls.append(("." + k, g))
-    if not calls:
+    def simple(node, guarded):
+        """events of one straight-line statement in evaluation (= source position) order"""
+        ev = []
+        for n in ast.walk(node):
+            if isinstance(n, ast.Call):
+                k = classify(n)
+                if k:
+                    ev.append(((n.lineno, n.col_offset), ("call", k, guarded)))
+            if isinstance(n, (ast.Assign, ast.AnnAssign)):
+                for t in (n.targets if isinstance(n, ast.Assign) else [n.target]):
+                    if isinstance(t, ast.Subscript) and isinstance(t.slice, ast.Constant) and t.slice.value == "known_hosts":
+                        v = n.value
+                        if not (isinstance(v, ast.Constant) and v.value is None):
+                            ev.append(((n.end_lineno, n.end_col_offset), ("pin", ast.dump(v), guarded, v)))
+        ev.sort(key=lambda x: x[0])
+        return [e for _, e in ev]
+
+    def key(path):
+        return tuple(tuple(x[:3]) for x in path[0]), path[1]
+
+    def dedupe(paths):
+        seen, out = set(), []
+        for pth in paths:
+            if key(pth) not in seen:
+                seen.add(key(pth))
+                out.append(pth)
+        if len(out) > 64:
+            raise TranslateError(f"{rel}: more than 64 paths through open()")
+        return out
+
+    def seq(stmts, guarded):
+        res = [([], True)]
+        for st in stmts:
+            new = []
+            for ev, alive in res:
+                if alive is not True:
+                    new.append((ev, alive))
+                    continue
+                for ev2, alive2 in stmt(st, guarded):
+                    new.append((ev + ev2, alive2))
+            res = dedupe(new)
+        return res
+
+    def stmt(st, guarded):
+        if isinstance(st, ast.If):
+            if _mentions_strict(st.test):
+                if not _positive_strict(st.test):
+                    raise TranslateError(f"{rel}:{st.lineno}: unsupported test on {PARAM} in open()")
+                if any(interest(x) is not None for x in st.orelse):
+                    raise TranslateError(f"{rel}:{st.lineno}: call of interest in the else branch of a strict test")
+                body = seq(st.body, True)
+                if any(alive is not True for _, alive in body):
+                    raise TranslateError(f"{rel}:{st.lineno}: strict branch that leaves open(): shape not translated")
+                return body
+            return dedupe(seq(st.body, guarded) + seq(st.orelse, guarded))
+        if isinstance(st, ast.Try):
+            for h in st.handlers:
+                if interest(h) is not None:
+                    raise TranslateError(f"{rel}:{h.lineno}: call of interest inside an except handler")
+                if not _ends_in_raise(h.body) and any(interest(x) is not None for x in st.body):
+                    raise TranslateError(f"{rel}:{h.lineno}: except handler that continues after a call of interest: shape not translated")
+            return seq(list(st.body) + list(st.orelse) + list(st.finalbody), guarded)
+        if isinstance(st, (ast.With, ast.AsyncWith)):
+            if any("suppress" in ast.dump(i.context_expr) for i in st.items) and any(interest(x) is not None for x in st.body):
+                raise TranslateError(f"{rel}:{st.lineno}: call of interest under suppress(): shape not translated")
+            return seq(st.body, guarded)
+        if isinstance(st, (ast.For, ast.While, ast.AsyncFor)):
+            if interest(st) is not None:
+                raise TranslateError(f"{rel}:{st.lineno}: call of interest inside a loop")
+            return [([], True)]
+        if isinstance(st, ast.Raise):
+            return [([], False)]
+        if isinstance(st, ast.Return):
+            return [(simple(st, guarded), "return")]
+        if isinstance(st, (ast.FunctionDef, ast.AsyncFunctionDef, ast.ClassDef)):
+            return [([], True)]
+        if isinstance(st, ast.Match):
+            if interest(st) is not None:
+                raise TranslateError(f"{rel}:{st.lineno}: call of interest inside match: shape not translated")
+            return [([], True)]
+        return [(simple(st, guarded), True)]
+
+    paths = []
+    for ev, alive in seq(fopen.body, False):
+        if alive is False:
+            continue
+        calls, pins = [], []
+        for e in ev:
+            if e[0] == "pin":
+                pins.append(e)
+                continue
+            _, k, g = e
+            if k == "connect":
+                if kh_literal_none is None:
+                    raise TranslateError(f"{rel}: cannot see what is passed as known_hosts to connect()")
+                if kh_literal_none is False:
+                    raise TranslateError(f"{rel}: known_hosts in the literal arguments of connect() is not None: shape not translated")
+                if any(not pg for _, _, pg, _ in pins):
+                    raise TranslateError(f"{rel}: known_hosts set outside the strict branch: shape not translated")
+                fallback = any(_may_yield_nothing(tree, cls, v, rel) for _, _, _, v in pins)
+                calls.append((f".connect {lbool(bool(pins))} {lbool(fallback)}", g))
+            else:
+                calls.append(("." + k, g))
+        if calls not in paths:
+            paths.append(calls)
+    if not paths or not any(paths):
         raise TranslateError(f"{rel}: no call of interest found in open()")
-    return calls
+    return paths
 
 
 # ---------------------------------------------------------------- system transport
@@ -447,10 +519,16 @@ def generate():
     b += f"/-- places that pass `auth_strict_key` on / of which pass something else than the parameter itself -/\ndef forwardingSites : Nat := {nfw}\ndef forwardingAltered : Nat := {badfw}\n"
     b += f"/-- `_setup_auth` raises unless `isinstance(auth_strict_key, bool)` -/\ndef typeChecked : Bool := {lbool(_type_checked())}\n\n"
     for n in ("paramiko", "ssh2", "asyncssh"):
-        calls = _open_calls(n)
+        paths = _open_paths(n)
         rel = TRANSPORTS[n][0]
-        b += f"/-- calls of `open()` in source order ({rel}); Bool = inside `if …auth_strict_key:` -/\n"
-        b += f"def {n}OpenCalls : List (Call × Bool) := [" + ", ".join(f"({c}, {lbool(g)})" for c, g in calls) + "]\n"
+
+        def lst(calls):
+            return "[" + ", ".join(f"({c}, {lbool(g)})" for c, g in calls) + "]"
+        b += (f"/-- EVERY path through `open()` from entry to normal exit ({rel}): the calls it makes, in order; Bool = inside\n"
+              f"    `if …auth_strict_key:`; tests on anything else (e.g. state left by an earlier attempt) are free -/\n")
+        b += f"def {n}OpenPaths : List (List (Call × Bool)) := [\n  " + ",\n  ".join(lst(c) for c in paths) + "]\n"
+        b += f"/-- the first of them (the only one when `open()` does not branch around a call of interest) -/\n"
+        b += f"def {n}OpenCalls : List (Call × Bool) := {lst(paths[0])}\n"
     b += "\n/-- SystemTransport._build_open_cmd: which values of auth_strict_key take the non-strict branch -/\n"
     b += f"def sysNonStrictWhen : String := {lstr(sysd['when'])}\n"
     b += f"def sysPreOpts : List String := [{', '.join(lstr(x) for x in sysd['pre'])}]\n"
